@@ -1,8 +1,196 @@
-(* C12 - every selection expression selects exactly the atoms its meaning denotes. (under construction) *)
-From Coq Require Import List String Bool.
-Require Import MD.Select.Syntax MD.Select.Model MD.Select.Run MD.Select.GenChecks.
+(* C12 - every selection expression selects exactly the atoms its meaning denotes.
+   Only statements, closed by [exact], and Print Assumptions.
+   cfg ranges over ALL grammar tables (keyword aliases, operator levels in any order, residue tables);
+   gen_cfg is the table regenerated from mdtraj/core/selection.py on every run, ref_cfg the hand-kept copy of
+   the table as found. *)
+From Coq Require Import List String ZArith Bool Sorted.
+Require Import MD.Select.Syntax MD.Select.Regex MD.Select.Model MD.Select.Run MD.Select.ParsePrint MD.Select.Proofs
+               MD.Select.Malformed MD.Select.Reference MD.Select.Precedence MD.Select.RegexProofs
+               MD.Gen.SelectTables MD.Select.GenChecks.
 Import ListNotations.
 
-Theorem gen_tables_sane : True.
-Proof. exact I. Qed.
-Print Assumptions gen_tables_sane.
+(* ---- parsing: the grammar reads back every parse tree printed with the parentheses its own level table
+   requires (all trees, all depths, every table without duplicate operator spellings) *)
+Theorem parse_print : forall cfg, NoDup (all_ops cfg) ->
+  forall e, wf cfg e -> parse_all cfg (print cfg e) = Some e.
+Proof. exact parse_print_tokens. Qed.
+Print Assumptions parse_print.
+
+(* ... in particular for the table extracted from the source of this run *)
+Theorem parse_print_source_tables : forall e, wf gen_cfg e -> parse_all gen_cfg (print gen_cfg e) = Some e.
+Proof. exact (parse_print_tokens gen_cfg gen_ops_nodup). Qed.
+Print Assumptions parse_print_source_tables.
+
+Example parse_print_nonvacuous : wf gen_cfg demo_tree /\ NoDup (all_ops gen_cfg).
+Proof. exact (conj demo_tree_wf gen_ops_nodup). Qed.
+Print Assumptions parse_print_nonvacuous.
+
+(* ---- and / or / not are intersection / union / complement, for every spelling, on the surface syntax *)
+Theorem eval_bool_algebra : forall cfg, NoDup (all_ops cfg) -> forall strict atoms, NoDup (map a_index atoms) ->
+  forall a b A B,
+    wf cfg a -> wf cfg b -> is_lit_expr a = false -> is_lit_expr b = false ->
+    select_tokens cfg strict atoms (print cfg a) = Sel A ->
+    select_tokens cfg strict atoms (print cfg b) = Sel B ->
+    (forall o, op_kind cfg o = Some KBinary -> assoc o (bin_sem cfg) = Some (SBool BAnd) ->
+       exists R, select_tokens cfg strict atoms (print cfg (EBin a [(o, b)])) = Sel R /\
+                 forall i, In i R <-> In i A /\ In i B) /\
+    (forall o, op_kind cfg o = Some KBinary -> assoc o (bin_sem cfg) = Some (SBool BOr) ->
+       exists R, select_tokens cfg strict atoms (print cfg (EBin a [(o, b)])) = Sel R /\
+                 forall i, In i R <-> In i A \/ In i B) /\
+    (forall o, op_kind cfg o = Some KUnary ->
+       exists R, select_tokens cfg strict atoms (print cfg (EUn o a)) = Sel R /\
+                 forall i, In i R <-> In i (map a_index atoms) /\ ~ In i A).
+Proof. exact Proofs.eval_bool_algebra. Qed.
+Print Assumptions eval_bool_algebra.
+
+(* ---- ranges, implicit lists, implicit equality *)
+Theorem range_spec : forall cfg strict k lo hi p,
+  compile_expr cfg strict (ERange k lo hi) = Some p ->
+  exists f vlo vhi, assoc k (sel_kws cfg) = Some f /\ lit_value cfg lo = Some vlo /\ lit_value cfg hi = Some vhi /\
+    forall a, py_eval (attr cfg a) p =
+              match cmp_apply CLe vlo (attr cfg a f) with
+              | Err x => Err x
+              | Ok r => if truthy r then cmp_apply CLe (attr cfg a f) vhi else Ok r
+              end.
+Proof. exact Proofs.range_spec. Qed.
+Print Assumptions range_spec.
+
+Theorem range_numeric : forall cfg strict k lo hi p f nlo nhi a x,
+  compile_expr cfg strict (ERange k lo hi) = Some p ->
+  assoc k (sel_kws cfg) = Some f ->
+  option_map as_num (lit_value cfg lo) = Some (Some nlo) -> option_map as_num (lit_value cfg hi) = Some (Some nhi) ->
+  as_num (attr cfg a f) = Some x ->
+  py_eval (attr cfg a) p = Ok (VBool (num_le nlo x && num_le x nhi)).
+Proof. exact Proofs.range_numeric. Qed.
+Print Assumptions range_numeric.
+
+Theorem inlist_spec : forall cfg strict k l1 l2 ls p,
+  compile_expr cfg strict (EInList k (l1 :: l2 :: ls)) = Some p ->
+  exists f vs, assoc k (sel_kws cfg) = Some f /\ map_opt (lit_value cfg) (l1 :: l2 :: ls) = Some vs /\
+    forall a, py_eval (attr cfg a) p = Ok (VBool (existsb (veq (attr cfg a f)) vs)).
+Proof. exact Proofs.inlist_spec. Qed.
+Print Assumptions inlist_spec.
+
+Theorem implicit_eq_spec : forall cfg strict k l p,
+  compile_expr cfg strict (EInList k [l]) = Some p ->
+  exists f v, assoc k (sel_kws cfg) = Some f /\ lit_value cfg l = Some v /\
+    forall a, py_eval (attr cfg a) p = Ok (VBool (veq (attr cfg a f) v)).
+Proof. exact Proofs.implicit_eq_spec. Qed.
+Print Assumptions implicit_eq_spec.
+
+(* ---- the result: strictly increasing indices of exactly the atoms whose predicate is truthy *)
+Theorem select_sorted_nodup : forall cfg strict atoms s l,
+  StronglySorted Z.lt (map a_index atoms) ->
+  select_str cfg strict atoms s = Sel l ->
+  StronglySorted Z.lt l /\ NoDup l /\ incl l (map a_index atoms).
+Proof. exact Proofs.select_sorted_nodup. Qed.
+Print Assumptions select_sorted_nodup.
+
+Example select_sorted_nonvacuous :
+  StronglySorted Z.lt (map a_index demo_atoms) /\
+  select_str gen_cfg false demo_atoms "name CA C or water"%string = Sel [1%Z; 2%Z; 3%Z; 4%Z].
+Proof. exact (conj demo_atoms_sorted demo_select). Qed.
+Print Assumptions select_sorted_nonvacuous.
+
+(* select = the list comprehension of the generated source (same predicate, same atom order); in the model the
+   two are one AST, the implementation side is checked by the run (eval(select_expression(s)) == select(s)) *)
+Theorem source_agrees : forall cfg strict atoms ts p,
+  compile_tokens cfg strict ts = Some p ->
+  (forall a, In a atoms -> exists v, py_eval (attr cfg a) p = Ok v) ->
+  select_tokens cfg strict atoms ts = Sel (comprehension (attr cfg) p atoms).
+Proof. exact Proofs.select_exact. Qed.
+Print Assumptions source_agrees.
+
+(* ---- malformed input is rejected, whatever the operator table *)
+Theorem malformed_rejected_tokens : forall cfg strict ts,
+  ts = [] \/ n_lp ts <> n_rp ts \/ In TBad ts \/
+  (exists a t, ts = a ++ [t] /\ ender t = false) \/
+  (exists t a, ts = t :: a /\ starter cfg t = false) ->
+  rejected cfg strict ts.
+Proof. exact malformed_tokens_rejected. Qed.
+Print Assumptions malformed_rejected_tokens.
+
+Theorem malformed_rejected_tree : forall cfg strict ts e e',
+  parse_all cfg ts = Some e -> sub e' e -> refused_node cfg e' -> rejected cfg strict ts.
+Proof. exact malformed_tree_rejected. Qed.
+Print Assumptions malformed_rejected_tree.
+
+Theorem malformed_rejected_compare_chain : forall cfg strict ts e0 p1 p2 rest c,
+  parse_all cfg ts = Some (EBin e0 (p1 :: p2 :: rest)) ->
+  chain_sem cfg (p1 :: p2 :: rest) = Some (SCmp c) ->
+  rejected cfg strict ts.
+Proof. exact compare_chain_rejected. Qed.
+Print Assumptions malformed_rejected_compare_chain.
+
+(* a single literal: full statement for the repaired test ... *)
+Theorem malformed_rejected_single_literal_fix : forall cfg ts l,
+  parse_all cfg ts = Some (ELit l) ->
+  (forall w, l = LWord w -> mem_str w safe_names = false) ->
+  rejected cfg true ts.
+Proof. exact single_literal_rejected_fix. Qed.
+Print Assumptions malformed_rejected_single_literal_fix.
+
+(* ... for the test as found only away from the numbers 0 and 1 (partial), which it lets through (refuted) *)
+Theorem malformed_rejected_single_literal_cur_partial : forall cfg ts l,
+  parse_all cfg ts = Some (ELit l) ->
+  (forall w, l = LWord w -> mem_str w safe_names = false) ->
+  (forall s m e, l = LNum s -> num_value s = Some (m, e) -> m <> 0%Z /\ m <> pow10 e) ->
+  rejected cfg false ts.
+Proof. exact single_literal_rejected_cur. Qed.
+Print Assumptions malformed_rejected_single_literal_cur_partial.
+
+Theorem malformed_rejected_single_literal_cur_refuted :
+  select_str ref_cfg false demo_atoms "1"%string = Sel [0%Z; 1%Z; 2%Z; 3%Z; 4%Z] /\
+  select_str ref_cfg false demo_atoms "0"%string = Sel [] /\
+  select_str ref_cfg false demo_atoms "2"%string = Rejected /\
+  select_str ref_cfg true demo_atoms "1"%string = Rejected /\ select_str ref_cfg true demo_atoms "0"%string = Rejected.
+Proof. exact single_literal_as_found_refuted. Qed.
+Print Assumptions malformed_rejected_single_literal_cur_refuted.
+
+(* ---- precedence.  Under a conventional order of the levels (unary > comparisons and =~ > and > or) an operator
+   of a looser class joins operands of tighter classes without parentheses ... *)
+Theorem precedence_conventional_fix : forall cfg, NoDup (all_ops cfg) -> order_conventional cfg = true ->
+  forall a b o, wf cfg a -> wf cfg b -> op_kind cfg o = Some KBinary ->
+    expr_rank cfg a < op_rank cfg o -> expr_rank cfg b < op_rank cfg o ->
+    parse_all cfg (print cfg a ++ TOp o :: print cfg b) = Some (EBin a [(o, b)]).
+Proof. exact conventional_no_parens. Qed.
+Print Assumptions precedence_conventional_fix.
+
+(* ... and reordering any table by class yields such an order (the minimal repair the model proposes) *)
+Theorem precedence_conventional_repair : forall cfg, order_conventional (conventional cfg) = true.
+Proof. exact conventional_is_conventional. Qed.
+Print Assumptions precedence_conventional_repair.
+
+(* The order as found (one level per spelling, alphabetical) is not conventional: "mass lt 5 and mass gt 0.5" is
+   not the conjunction of the comparisons (it is rejected), "protein and name =~ 'C.*'" raises TypeError on a
+   topology with a non-protein atom and silently works on an all-protein one; the conventional order of the
+   same operators reads both as intended. *)
+Theorem precedence_conventional_refuted :
+  order_conventional ref_cfg = false /\
+  parse_all ref_cfg (print ref_cfg cmp_mass_lt ++ TOp "and" :: print ref_cfg cmp_mass_gt)
+    <> Some (EBin cmp_mass_lt [("and"%string, cmp_mass_gt)]) /\
+  select_str ref_cfg false demo_atoms "protein and name =~ 'C.*'"%string = EvalErr TypeErr /\
+  select_str ref_cfg false demo_protein_only "protein and name =~ 'C.*'"%string = Sel [1%Z; 2%Z] /\
+  select_str ref_cfg false demo_atoms "mass lt 5 and mass gt 0.5"%string = Rejected /\
+  select_str (conventional ref_cfg) false demo_atoms "protein and name =~ 'C.*'"%string = Sel [1%Z; 2%Z] /\
+  select_str (conventional ref_cfg) false demo_atoms "mass lt 5 and mass gt 0.5"%string = Sel [4%Z].
+Proof. exact precedence_as_found_refuted. Qed.
+Print Assumptions precedence_conventional_refuted.
+
+(* ---- regular expressions: the matcher decides "some prefix of the string is in the language of the pattern" *)
+Theorem regex_match_spec : forall r s,
+  rx_match_prefix r s = true <-> exists s1 s2, s = s1 ++ s2 /\ lang r s1.
+Proof. exact rx_match_prefix_correct. Qed.
+Print Assumptions regex_match_spec.
+
+(* ---- the regenerated tables are usable: no duplicate spelling, every operator has a meaning, the standard
+   residues are where the documentation puts them *)
+Theorem source_tables_wellformed :
+  NoDup (all_ops gen_cfg) /\ NoDup (all_ops (conventional gen_cfg)).
+Proof. exact (conj gen_ops_nodup gen_conv_ops_nodup). Qed.
+Print Assumptions source_tables_wellformed.
+
+(* every documented keyword, synonym and operator spelling is in the source tables with its documented meaning *)
+Theorem source_tables_documented : documented_meaning gen_cfg = true.
+Proof. exact gen_documented_meaning. Qed.
+Print Assumptions source_tables_documented.
